@@ -74,3 +74,327 @@ Proof.
   destruct (is_growth e); [|destruct (has_micro tri e)]; cbn in Ht;
     repeat (destruct Ht as [<-|Ht]; [eexists; repeat split; try eassumption; cbn; auto|]); destruct Ht.
 Qed.
+
+Lemma dists_items_heads ds k : In k (map fst (dists_items ds)) ->
+  exists t s, In t (map fst ds) /\ k = [t; s] /\ In s (dist_kw_names ds).
+Proof.
+  unfold dists_items, dist_kw_names. rewrite map_flat_map'. intros H. apply in_flat_map in H. destruct H as (td & Htd & Hk).
+  rewrite pre_keys in Hk. apply in_map_iff in Hk. destruct Hk as (t & <- & Ht).
+  destruct (snd td) as [p|f kws] eqn:Ed; cbn [dist_local map] in Ht; [destruct Ht|].
+  rewrite map_map in Ht. cbn [fst] in Ht. apply in_map_iff in Ht. destruct Ht as (kv & <- & Hkv).
+  exists (fst td), (fst kv). repeat split.
+  - apply in_map, Htd.
+  - apply in_flat_map. exists td. split; [exact Htd|]. rewrite Ed. apply in_map, Hkv.
+Qed.
+
+Lemma u_tumor_keys_NoDup u : u_names_ok u = true -> NoDup (map fst (u_tumor_items u)).
+Proof.
+  intros H. unfold u_tumor_items. rewrite sel_params_filter.
+  apply edges_flat_keys_NoDup, filter_names_NoDup, names_ok_edges_NoDup, H.
+Qed.
+Lemma u_lnl_keys_NoDup u : u_names_ok u = true -> NoDup (map fst (u_lnl_items u)).
+Proof.
+  intros H. unfold u_lnl_items. rewrite sel_params_filter.
+  apply edges_flat_keys_NoDup, filter_names_NoDup, names_ok_edges_NoDup, H.
+Qed.
+Lemma u_dist_keys_NoDup u : u_names_ok u = true -> NoDup (map fst (u_dist_items u)).
+Proof. intros H. apply dists_items_keys_NoDup; [apply names_ok_tstages_NoDup, H | apply names_ok_dist_keys, H]. Qed.
+
+Lemma u_spread_keys_NoDup u : u_names_ok u = true -> NoDup (map fst (u_tumor_items u ++ u_lnl_items u)).
+Proof.
+  intros H. unfold u_tumor_items, u_lnl_items. rewrite !sel_params_filter, <- flat_map_app.
+  apply edges_flat_keys_NoDup. rewrite map_app. apply NoDup_map_filter_split, names_ok_edges_NoDup, H.
+Qed.
+Lemma u_tumor_lnl_disjoint u k : u_names_ok u = true -> In k (map fst (u_lnl_items u)) -> ~ In k (map fst (u_tumor_items u)).
+Proof.
+  intros H H2 H1. pose proof (u_spread_keys_NoDup u H) as Hnd. rewrite map_app in Hnd.
+  exact (NoDup_app_disj _ _ k Hnd H1 H2).
+Qed.
+Lemma u_spread_key_head u k : In k (map fst (u_tumor_items u ++ u_lnl_items u)) ->
+  exists n s, k = [n; s] /\ In n (u_edge_names u) /\ In s ["spread"; "growth"; "micro"].
+Proof.
+  rewrite map_app, in_app_iff. intros [H|H]; apply sel_params_heads in H; destruct H as (e & s & Hin & _ & -> & Hs);
+    exists (e_name e), s; repeat split; try assumption; apply in_map, Hin.
+Qed.
+Lemma u_names_NoDup u : u_names_ok u = true -> NoDup (u_names u).
+Proof.
+  intros H. unfold u_names, u_items. rewrite app_assoc, map_app. apply NoDup_app_intro.
+  - apply u_spread_keys_NoDup, H.
+  - apply u_dist_keys_NoDup, H.
+  - intros k Hk Hk'. apply u_spread_key_head in Hk. destruct Hk as (n & s & -> & Hn & _).
+    apply dists_items_heads in Hk'. destruct Hk' as (t & s' & Ht & Heq & _). injection Heq as -> _.
+    exact (names_ok_edge_not_tstage u _ H Hn Ht).
+Qed.
+
+Lemma u_spread_flat u : u_names_ok u = true ->
+  u_get_spread_params u true = leaves (u_tumor_items u ++ u_lnl_items u).
+Proof.
+  intros H. unfold u_get_spread_params, maybe_flatten. rewrite (u_tumor_flat u H), (u_lnl_flat u H), kw_update_leaves.
+  rewrite kw_update_fresh; [| apply u_lnl_keys_NoDup, H | intros k; apply u_tumor_lnl_disjoint, H].
+  apply flatten_leaves, u_spread_keys_NoDup, H.
+Qed.
+Lemma u_got_spec u : u_names_ok u = true -> u_got u = u_items u.
+Proof.
+  intros H. unfold u_got, u_get_params, maybe_flatten. rewrite (u_spread_flat u H), (u_dist_flat u H), kw_update_leaves.
+  pose proof (u_names_NoDup u H) as Hnd. unfold u_names, u_items in Hnd. rewrite app_assoc, map_app in Hnd.
+  rewrite kw_update_fresh; [| apply u_dist_keys_NoDup, H | intros k Hk Hk'; exact (NoDup_app_disj _ _ k Hnd Hk' Hk)].
+  rewrite flatten_leaves by (rewrite map_app; exact Hnd). rewrite items_leaves. unfold u_items. rewrite app_assoc. reflexivity.
+Qed.
+
+Theorem uni_names_nodup : C10_uni_names_nodup_stmt.
+Proof. intros u H. split; [apply u_got_spec, H | apply u_names_NoDup, H]. Qed.
+
+(** nested form *)
+Lemma u_nested_spec u : u_names_ok u = true ->
+  u_get_params u false = edges_nested (u_tri u) (tumor_edges (u_graph u)) ++ edges_nested (u_tri u) (lnl_edges (u_graph u))
+                         ++ dists_nested (u_dists u).
+Proof.
+  intros H. unfold u_get_params, u_get_spread_params, u_get_tumor_spread_params, u_get_lnl_spread_params,
+    u_get_distribution_params, maybe_flatten.
+  pose proof (names_ok_edges_NoDup u H) as Hen.
+  pose proof (NoDup_map_filter_split e_name is_tumor_spread (u_edges u) Hen) as Hsplit.
+  rewrite !edges_get_params_nested by (apply filter_names_NoDup; exact Hen).
+  rewrite dists_get_params_nested by (apply names_ok_tstages_NoDup, H).
+  assert (Hk : forall es, map fst (edges_nested (u_tri u) es) = map (fun n => [n]) (map e_name es)).
+  { intros es. unfold edges_nested. rewrite !map_map. reflexivity. }
+  assert (Hkd : forall k, In k (map fst (dists_nested (u_dists u))) -> exists t, k = [t] /\ In t (u_tstages u)).
+  { intros k Hk'. unfold dists_nested in Hk'. rewrite map_flat_map' in Hk'. apply in_flat_map in Hk'.
+    destruct Hk' as (td & Htd & Hk'). destruct (snd td); [destruct Hk'|]. destruct Hk' as [<-|[]].
+    exists (fst td). split; [reflexivity | apply in_map, Htd]. }
+  rewrite (kw_update_fresh (edges_nested _ (lnl_edges _))).
+  - rewrite kw_update_fresh; [rewrite <- app_assoc; reflexivity | |].
+    + unfold dists_nested. clear Hkd.
+      pose proof (names_ok_tstages_NoDup u H) as Ht. unfold u_tstages in Ht.
+      induction (u_dists u) as [|[t d] r IH]; [constructor|]. cbn [flat_map map fst snd] in *. inversion Ht; subst.
+      destruct d; cbn [app map fst]; [apply IH; assumption|]. constructor; [|apply IH; assumption].
+      intros Hin. rewrite map_flat_map' in Hin. apply in_flat_map in Hin. destruct Hin as (td & Htd & Hin).
+      destruct (snd td); [destruct Hin|]. destruct Hin as [Heq|[]]. injection Heq as Heq.
+      match goal with Hn : ~ In t _ |- _ => apply Hn end. rewrite <- Heq. apply in_map, Htd.
+    + intros k Hk1 Hk2. destruct (Hkd k Hk1) as (t & -> & Ht). rewrite map_app, !Hk, in_app_iff in Hk2.
+      assert (Hin : In t (u_edge_names u)).
+      { destruct Hk2 as [Hk2|Hk2]; apply in_map_iff in Hk2; destruct Hk2 as (n & [= ->] & Hn); eapply in_filter_names; exact Hn. }
+      exact (names_ok_edge_not_tstage u t H Hin Ht).
+  - rewrite Hk. apply NoDup_map_inj; [intros x y [= Hxy]; exact Hxy|]. apply (NoDup_app_r _ _ Hsplit).
+  - intros k. rewrite !Hk. intros Hk1 Hk2. apply in_map_iff in Hk1. destruct Hk1 as (n & <- & Hn).
+    apply in_map_iff in Hk2. destruct Hk2 as (n' & [= ->] & Hn').
+    exact (NoDup_app_disj _ _ n Hsplit Hn' Hn).
+Qed.
+
+Theorem uni_nested_flattens_to_flat : C10_uni_nested_flattens_to_flat_stmt.
+Proof.
+  intros u H. rewrite (u_nested_spec u H), (u_got_spec u H), !flat_items_dict_app, !flat_items_edges_nested, flat_items_dists_nested.
+  unfold u_items, u_tumor_items, u_lnl_items, u_dist_items, tumor_edges, lnl_edges. rewrite !sel_params_filter. reflexivity.
+Qed.
+
+(** * set_params of a unilateral model *)
+Definition lk_of (X : list string) (kw : kwargs) (k : path) : option val :=
+  match k with [] => None | n :: t => eff X kw n t end.
+
+Lemma lk_of_u_lk X kw n s : ~ In s X -> lk_of X kw [n; s] = u_lk kw [n; s].
+Proof.
+  intros H. unfold lk_of, u_lk, eff. destruct (kw_last [n; s] kw); [reflexivity|].
+  unfold head_of. cbn [partition_key fst]. apply mem_false in H. rewrite H. reflexivity.
+Qed.
+
+Section GraphSet.
+  Variables (sel : edge -> bool) (g : graph) (kw : kwargs).
+  Let es := g_edges g.
+  Let X := map e_name (filter sel es).
+  Hypothesis HX : forall s, In s reserved -> ~ In s X.
+
+  Lemma graph_lookup split glob :
+    unflatten_and_split kw X = (split, glob) ->
+    forall e t, In e es -> sel e = true -> kw_get t (obj_kwargs (e_name e) split glob) = lk_of X kw (e_name e :: t).
+  Proof.
+    intros Hu e t Hin Hs. apply (obj_kwargs_lookup kw X); [apply HX; cbn; tauto | exact Hu |].
+    apply in_map, filter_In. split; assumption.
+  Qed.
+  Lemma graph_plan_lk a : plan (lk_of X kw) (sel_params (g_tri g) sel es) a = plan (u_lk kw) (sel_params (g_tri g) sel es) a.
+  Proof.
+    apply plan_ext. intros k Hk. apply sel_params_heads in Hk. destruct Hk as (e & s & _ & _ & -> & Hs).
+    apply lk_of_u_lk. apply HX. cbn in Hs. cbn. intuition.
+  Qed.
+  Lemma graph_set_sel_ok a qs :
+    all_unit (plan (u_lk kw) (sel_params (g_tri g) sel es) a) = Some qs ->
+    graph_set_params_sel sel g a kw
+    = (with_edges g (edges_put (g_tri g) sel es qs), Some (skipn (length (sel_params (g_tri g) sel es)) a)).
+  Proof.
+    intros H. unfold graph_set_params_sel. fold es. fold X. destruct (unflatten_and_split kw X) as [split glob] eqn:Hu.
+    rewrite (set_edges_for_ok (g_tri g) sel split glob (lk_of X kw) es a qs); [reflexivity | apply graph_lookup, Hu |].
+    rewrite graph_plan_lk. exact H.
+  Qed.
+  Lemma graph_set_sel_fail a :
+    all_unit (plan (u_lk kw) (sel_params (g_tri g) sel es) a) = None ->
+    snd (graph_set_params_sel sel g a kw) = None.
+  Proof.
+    intros H. unfold graph_set_params_sel. fold es. fold X. destruct (unflatten_and_split kw X) as [split glob] eqn:Hu.
+    pose proof (set_edges_for_fail (g_tri g) sel split glob (lk_of X kw) es a (graph_lookup split glob Hu)) as Hf.
+    rewrite graph_plan_lk in Hf. specialize (Hf H).
+    destruct (set_edges_for (g_tri g) sel split glob es a) as [es' o]. cbn [snd] in *. exact Hf.
+  Qed.
+End GraphSet.
+
+Section DistSet.
+  Variables (u : uni) (kw : kwargs).
+  Hypothesis Hok : u_names_ok u = true.
+  Let X := map fst (u_dists u).
+
+  Lemma dist_plan_lk a : plan (lk_of X kw) (u_dist_items u) a = plan (u_lk kw) (u_dist_items u) a.
+  Proof.
+    apply plan_ext. intros k Hk. apply dists_items_heads in Hk. destruct Hk as (t & s & _ & -> & Hs).
+    apply lk_of_u_lk. apply (names_ok_kw_not_tstage u s Hok Hs).
+  Qed.
+  Lemma u_set_dist_spec a :
+    match dists_put (u_maxt u) (u_dists u) (plan (u_lk kw) (u_dist_items u) a) with
+    | Some ds' => u_set_distribution_params u a kw = (u_with_dists u ds', Some (skipn (length (u_dist_items u)) a))
+    | None => snd (u_set_distribution_params u a kw) = None
+    end.
+  Proof.
+    unfold u_set_distribution_params. fold X. destruct (unflatten_and_split kw X) as [split glob] eqn:Hu.
+    pose proof (set_dists_for_spec (u_maxt u) split glob (lk_of X kw) (u_dists u) a) as Hs.
+    rewrite <- dist_plan_lk. unfold u_dist_items in *.
+    assert (Hlk : forall td t, In td (u_dists u) -> kw_get t (obj_kwargs (fst td) split glob) = lk_of X kw (fst td :: t)).
+    { intros td t Hin. apply (obj_kwargs_lookup kw X); [apply (in_reserved_not_tstage u "" Hok); cbn; tauto | exact Hu | apply in_map, Hin]. }
+    specialize (Hs Hlk). destruct (dists_put _ _ _) as [ds'|].
+    - rewrite Hs. reflexivity.
+    - destruct (set_dists_for _ _ _ _ _) as [ds' o]. cbn [snd] in *. exact Hs.
+  Qed.
+End DistSet.
+
+(** the object after a successful call *)
+Definition u_put (u : uni) (qT qL : list Qc) (ds' : list (string * dist)) : uni :=
+  u_with_dists
+    (u_with_graph u (with_edges (u_graph u)
+       (edges_put (u_tri u) sel_lnl (edges_put (u_tri u) is_tumor_spread (u_edges u) qT) qL))) ds'.
+
+Lemma reserved_not_filter u sel s : u_names_ok u = true -> In s reserved -> ~ In s (map e_name (filter sel (u_edges u))).
+Proof. intros H Hs Hin. apply (in_reserved_not_edge u s H Hs). eapply in_filter_names. exact Hin. Qed.
+
+Lemma tumor_not_lnl e : is_tumor_spread e = true -> sel_lnl e = false.
+Proof. unfold sel_lnl. intros ->. reflexivity. Qed.
+Lemma lnl_not_tumor e : sel_lnl e = true -> is_tumor_spread e = false.
+Proof. unfold sel_lnl. destruct (is_tumor_spread e); [discriminate | reflexivity]. Qed.
+
+Lemma u_new_split u a kw :
+  u_new u a kw = plan (u_lk kw) (u_tumor_items u) a
+                 ++ plan (u_lk kw) (u_lnl_items u) (skipn (length (u_tumor_items u)) a)
+                 ++ plan (u_lk kw) (u_dist_items u) (skipn (u_num_spread u) a).
+Proof.
+  unfold u_new, u_items, u_num_spread. rewrite !plan_app, skipn_skipn, app_length. reflexivity.
+Qed.
+
+Lemma g_tri_with_edges g es : g_tri (with_edges g es) = g_tri g.
+Proof. reflexivity. Qed.
+Lemma g_edges_with_edges g es : g_edges (with_edges g es) = es.
+Proof. reflexivity. Qed.
+
+Lemma u_set_spread_ok u a kw qT qL : u_names_ok u = true ->
+  all_unit (plan (u_lk kw) (u_tumor_items u) a) = Some qT ->
+  all_unit (plan (u_lk kw) (u_lnl_items u) (skipn (length (u_tumor_items u)) a)) = Some qL ->
+  u_set_spread_params u a kw = (u_put u qT qL (u_dists u), Some (skipn (u_num_spread u) a)).
+Proof.
+  intros H HT HL. unfold u_set_spread_params, u_set_tumor_spread_params, u_set_lnl_spread_params, lift_graph.
+  rewrite (graph_set_sel_ok is_tumor_spread (u_graph u) kw (fun s => reserved_not_filter u _ s H) a qT HT).
+  cbn [fst snd andthen u_with_graph u_graph].
+  assert (Htri : g_tri (with_edges (u_graph u) (edges_put (g_tri (u_graph u)) is_tumor_spread (g_edges (u_graph u)) qT)) = u_tri u) by reflexivity.
+  pose proof (sel_params_put_other (u_tri u) is_tumor_spread sel_lnl (u_edges u) kind_sel_lnl tumor_not_lnl qT) as Hsame.
+  erewrite graph_set_sel_ok with (qs := qL).
+  - cbn [fst snd with_edges g_edges g_base g_nodes]. unfold u_put, u_with_dists, u_with_graph, with_edges, u_num_spread.
+    cbn [u_graph u_mods u_dists u_maxt g_base g_nodes g_edges]. fold (u_tri u). fold (u_edges u).
+    change (g_tri {| g_base := g_base (u_graph u); g_nodes := g_nodes (u_graph u);
+                     g_edges := edges_put (u_tri u) is_tumor_spread (u_edges u) qT |}) with (u_tri u).
+    rewrite Hsame, skipn_skipn, app_length. destruct u; reflexivity.
+  - intros s Hs. rewrite g_edges_with_edges. fold (u_tri u) (u_edges u).
+    rewrite (edges_put_filter_other (u_tri u) is_tumor_spread sel_lnl (u_edges u) kind_sel_lnl tumor_not_lnl).
+    apply reserved_not_filter; assumption.
+  - rewrite g_tri_with_edges, g_edges_with_edges. fold (u_tri u) (u_edges u). rewrite Hsame. exact HL.
+Qed.
+
+Lemma u_set_spread_fail u a kw : u_names_ok u = true ->
+  all_unit (plan (u_lk kw) (u_tumor_items u ++ u_lnl_items u) a) = None ->
+  snd (u_set_spread_params u a kw) = None.
+Proof.
+  intros H Hall. rewrite plan_app, all_unit_app in Hall.
+  unfold u_set_spread_params, u_set_tumor_spread_params, u_set_lnl_spread_params, lift_graph.
+  destruct (all_unit (plan (u_lk kw) (u_tumor_items u) a)) as [qT|] eqn:HT.
+  - rewrite (graph_set_sel_ok is_tumor_spread (u_graph u) kw (fun s => reserved_not_filter u _ s H) a qT HT).
+    cbn [fst snd andthen u_with_graph u_graph].
+    destruct (all_unit (plan (u_lk kw) (u_lnl_items u) _)) eqn:HL; [discriminate|].
+    pose proof (sel_params_put_other (u_tri u) is_tumor_spread sel_lnl (u_edges u) kind_sel_lnl tumor_not_lnl qT) as Hsame.
+    cbn [snd]. apply graph_set_sel_fail.
+    + intros s Hs. rewrite g_edges_with_edges. fold (u_tri u) (u_edges u).
+      rewrite (edges_put_filter_other (u_tri u) is_tumor_spread sel_lnl (u_edges u) kind_sel_lnl tumor_not_lnl).
+      apply reserved_not_filter; assumption.
+    + rewrite g_tri_with_edges, g_edges_with_edges. fold (u_tri u) (u_edges u). rewrite Hsame. exact HL.
+  - pose proof (graph_set_sel_fail is_tumor_spread (u_graph u) kw (fun s => reserved_not_filter u _ s H) a HT) as Hf.
+    destruct (graph_set_params_sel is_tumor_spread (u_graph u) a kw) as [g' o]. cbn [snd fst] in *. subst o. reflexivity.
+Qed.
+
+Lemma u_put_dists u qT qL ds' : u_dists (u_put u qT qL ds') = ds'.
+Proof. reflexivity. Qed.
+Lemma u_put_maxt u qT qL ds' : u_maxt (u_put u qT qL ds') = u_maxt u.
+Proof. reflexivity. Qed.
+Lemma u_put_tri u qT qL ds' : u_tri (u_put u qT qL ds') = u_tri u.
+Proof. reflexivity. Qed.
+Lemma u_put_edges u qT qL ds' :
+  u_edges (u_put u qT qL ds') = edges_put (u_tri u) sel_lnl (edges_put (u_tri u) is_tumor_spread (u_edges u) qT) qL.
+Proof. reflexivity. Qed.
+Lemma u_put_edge_names u qT qL ds' : u_edge_names (u_put u qT qL ds') = u_edge_names u.
+Proof. unfold u_edge_names. rewrite u_put_edges, !edges_put_names. reflexivity. Qed.
+
+Lemma u_put_with_dists u qT qL ds ds' : u_with_dists (u_put u qT qL ds) ds' = u_put u qT qL ds'.
+Proof. reflexivity. Qed.
+Lemma u_put_items_dist u qT qL ds' : u_dist_items (u_put u qT qL ds') = dists_items ds'.
+Proof. reflexivity. Qed.
+Lemma u_put_tumor_items u qT qL ds' : length qT = length (u_tumor_items u) ->
+  u_tumor_items (u_put u qT qL ds') = combine (map fst (u_tumor_items u)) qT.
+Proof.
+  intros Hl. unfold u_tumor_items. rewrite u_put_tri, u_put_edges.
+  rewrite (sel_params_put_other (u_tri u) sel_lnl is_tumor_spread _ kind_sel_tumor lnl_not_tumor).
+  apply sel_params_put; [apply kind_sel_tumor | exact Hl].
+Qed.
+Lemma u_put_lnl_items u qT qL ds' : length qL = length (u_lnl_items u) ->
+  u_lnl_items (u_put u qT qL ds') = combine (map fst (u_lnl_items u)) qL.
+Proof.
+  intros Hl. unfold u_lnl_items. rewrite u_put_tri, u_put_edges.
+  pose proof (sel_params_put_other (u_tri u) is_tumor_spread sel_lnl (u_edges u) kind_sel_lnl tumor_not_lnl qT) as Hsame.
+  rewrite sel_params_put; [rewrite Hsame; reflexivity | apply kind_sel_lnl | rewrite Hsame; exact Hl].
+Qed.
+
+(** the main lemma: success *)
+Lemma u_set_params_ok u a kw qT qL ds' : u_names_ok u = true ->
+  all_unit (plan (u_lk kw) (u_tumor_items u) a) = Some qT ->
+  all_unit (plan (u_lk kw) (u_lnl_items u) (skipn (length (u_tumor_items u)) a)) = Some qL ->
+  dists_put (u_maxt u) (u_dists u) (plan (u_lk kw) (u_dist_items u) (skipn (u_num_spread u) a)) = Some ds' ->
+  u_set_params u a kw = (u_put u qT qL ds', Some (skipn (length (u_items u)) a)).
+Proof.
+  intros H HT HL HD. unfold u_set_params. rewrite (u_set_spread_ok u a kw qT qL H HT HL). cbn [andthen].
+  assert (Hok' : u_names_ok (u_put u qT qL (u_dists u)) = true).
+  { unfold u_names_ok in *. rewrite u_put_edge_names. exact H. }
+  pose proof (u_set_dist_spec (u_put u qT qL (u_dists u)) kw Hok' (skipn (u_num_spread u) a)) as Hs.
+  rewrite u_put_maxt, u_put_dists, u_put_items_dist in Hs. fold (u_dist_items u) in Hs. rewrite HD in Hs.
+  rewrite Hs, u_put_with_dists, skipn_skipn. unfold u_items, u_num_spread. rewrite !app_length. do 2 f_equal. f_equal. lia.
+Qed.
+(** the main lemma: failure *)
+Lemma u_set_params_fail u a kw : u_names_ok u = true ->
+  u_accepts u (u_new u a kw) = false -> snd (u_set_params u a kw) = None.
+Proof.
+  intros H Hacc. unfold u_accepts in Hacc. rewrite u_new_split in Hacc.
+  rewrite app_assoc in Hacc.
+  assert (Hlen : length (plan (u_lk kw) (u_tumor_items u) a ++ plan (u_lk kw) (u_lnl_items u) (skipn (length (u_tumor_items u)) a))
+                 = u_num_spread u) by (unfold u_num_spread; rewrite !app_length, !plan_length; reflexivity).
+  rewrite firstn_app_len, skipn_app_len in Hacc by exact Hlen.
+  unfold u_set_params.
+  destruct (all_unit (plan (u_lk kw) (u_tumor_items u) a ++ _)) as [qs|] eqn:Hall.
+  - rewrite all_unit_app in Hall.
+    destruct (all_unit (plan (u_lk kw) (u_tumor_items u) a)) as [qT|] eqn:HT; [|discriminate].
+    destruct (all_unit (plan (u_lk kw) (u_lnl_items u) _)) as [qL|] eqn:HL; [|discriminate].
+    rewrite (u_set_spread_ok u a kw qT qL H HT HL). cbn [andthen is_some andb] in *.
+    assert (Hok' : u_names_ok (u_put u qT qL (u_dists u)) = true).
+    { unfold u_names_ok in *. rewrite u_put_edge_names. exact H. }
+    pose proof (u_set_dist_spec (u_put u qT qL (u_dists u)) kw Hok' (skipn (u_num_spread u) a)) as Hs.
+    rewrite u_put_maxt, u_put_dists, u_put_items_dist in Hs. fold (u_dist_items u) in Hs.
+    destruct (dists_put _ _ _); [discriminate | exact Hs].
+  - rewrite <- plan_app in Hall. pose proof (u_set_spread_fail u a kw H Hall) as Hf.
+    destruct (u_set_spread_params u a kw) as [u' o]. cbn [snd] in Hf. subst o. reflexivity.
+Qed.
